@@ -19,6 +19,7 @@ import hashlib
 import json
 import math
 import os
+import re
 import subprocess
 import sys
 import time
@@ -208,7 +209,9 @@ class Ck:
         for k, v in d["monitors"].items():
             self.monitors[k] = self.monitors.get(k, 0) + v
         for k, m in d["margins"].items():
-            if k not in self.margins or m["worst_ratio"] > self.margins[k]["worst_ratio"]:
+            # (non-finite numbers travel through JSON as the strings "nan" / "inf" / "-inf")
+            m = dict(m, **{f: float(m[f]) for f in ("worst_ratio", "value", "bound")})
+            if k not in self.margins or m["worst_ratio"] > self.margins[k]["worst_ratio"] or math.isnan(m["worst_ratio"]):
                 self.margins[k] = m
         self.violations.extend(d["violations"])
         for k, h in d["known_hits"].items():
@@ -224,13 +227,15 @@ class Ck:
             else:
                 self.reach[k] = v
         for k, v in d["notes"].items():
-            self.notes[k] = max(self.notes.get(k, -math.inf), v)
+            v = float(v)
+            if not math.isnan(v):
+                self.notes[k] = max(self.notes.get(k, -math.inf), v)
 
 
 def write_replay(pid: str, viol: dict) -> str:
     d = os.path.join(os.environ.get("VERIF_REPLAY_DIR") or os.path.join(VERIF, "replay"), pid)
     os.makedirs(d, exist_ok=True)
-    path = os.path.join(d, f"{viol['clause'].replace('/', '_')}-{case_hash(viol['case'])}.json")
+    path = os.path.join(d, f"{re.sub(r'[^A-Za-z0-9_.=()+-]+', '_', viol['clause'])}-{case_hash(viol['case'])}.json")
     with open(path, "w") as f:
         json.dump({"property": pid, **viol}, f, indent=1)
     return path
